@@ -1340,6 +1340,22 @@ class Ev:
             if last == "zeros":
                 return Arr(shape, Poly.const(0))
             return Poly.tensor(("ones", tuple(vkey(x) for x in shape)), len(shape))
+        if last in ("from_elem", "from_shape_fn") and "ndarray" in d and len(args) == 2:
+            shape = args[0].items if isinstance(args[0], Tup) else [args[0]]
+            v = args[1]
+            if last == "from_shape_fn":
+                if not isinstance(v, Clo):
+                    raise Unsupported("from_shape_fn with a non-closure")
+                env2 = dict(v.env)
+                idx = [Poly.atom("s%d" % i) for i in range(len(shape))]
+                self.bind(v.params[0], idx[0] if len(idx) == 1 else Tup(idx), env2)
+                v = self.collapse(self.eval(v.body, env2, depth))
+            if isinstance(v, Poly) and v.order == 0 and v.const_value() is not None:
+                kind = {0: "zeros", 1: "ones"}.get(v.const_value())
+                if kind:
+                    self.zero_shapes.append((kind, tuple(vkey(x) for x in shape)))
+                    return Arr(shape, Poly.const(0)) if kind == "zeros" else Poly.tensor(("ones", tuple(vkey(x) for x in shape)), len(shape))
+            return Arr(shape, v if isinstance(v, Poly) else Sym("elem", vkey(v)))
         if last == "eye" and "ndarray" in d and len(args) == 1:
             return Arr([args[0], args[0]], Sym("eye"))
         if d.endswith("ndarray::Axis") or last == "Axis":
